@@ -567,6 +567,8 @@ func (c09) Gen(rng *rand.Rand, tier string, emit func(string)) {
 			emit(fmt.Sprintf("d1 %s %s", hx(a), hx(b)))
 		}
 	}
+	// ---- concurrent use (c09_conc.go); LAST so that the cases above keep their PRNG draws ------------------------
+	c09GenConc(rng, tier, emit)
 }
 
 type c09Failer func(sig, format string, a ...any)
@@ -743,6 +745,12 @@ func (c09) Exec(c string) (string, []Fail) {
 		}
 	}
 	stat("op:" + f[0])
+	if f[0] == "conc" { // the kernels under concurrent use (c09_conc.go)
+		return c09ExecConc(f)
+	}
+	if f[0] == "race" && len(f) > 1 && f[1] == "conc" { // the same, replayed under the race detector
+		return c09Race(strings.Join(f[1:], " "))
+	}
 	res := guardT(60*time.Second, func() string {
 		switch {
 		case f[0] == "samerow" && len(f) == 2:
